@@ -30,7 +30,7 @@ ASSUMPTIONS = [
 ]
 GATES = {
     "nan_invalid_disparity": 1, "two_or_more_bands": 1, "grids": 1, "georeferenced_input": 1, "validation_present": 2,
-    "validation_absent": 2, "replayed_configurations": 5, "subprocess_runs": 1, "rasters_compared": 20,
+    "validation_absent": 2, "replayed_configurations": 5, "subprocess_runs": 1, "rasters_compared": 20, "right_input_with_its_own_georeferencing": 1,
 }
 
 
@@ -79,7 +79,9 @@ def build_config(rng, d):
     geo = bool(rng.integers(0, 2))
     names = ["r", "g", "b"] if nb == 3 else None
     left = {"img": rasters.write_tif(os.path.join(d, "left.tif"), l, descriptions=names, georef=geo)}
-    right = {"img": rasters.write_tif(os.path.join(d, "right.tif"), r, descriptions=names, georef=geo)}
+    shifted = geo and rng.random() < 0.6
+    right = {"img": rasters.write_tif(os.path.join(d, "right.tif"), r, descriptions=names, georef=geo,
+                                      origin=(500012.5, 4800003.0) if shifted else (500000.0, 4800000.0))}
     if rng.random() < 0.3:
         left["mask"] = rasters.write_tif(os.path.join(d, "lmask.tif"), (rng.random((rows, cols)) < 0.1).astype(np.int16), "int16")
     if rng.random() < 0.3:
@@ -107,7 +109,7 @@ def build_config(rng, d):
     user = {"input": {"left": left, "right": right}, "pipeline": pipe}
     n_conf = sum(1 for k in keys if pipes.kind_of(k) == "cost_volume_confidence")
     desc = {"pipeline": keys, "shape": [rows, cols], "bands": nb, "georef": geo, "grid": use_grid, "validation": validation,
-            "invalid_disparity": inv, "n_conf_steps": n_conf}
+            "invalid_disparity": inv, "n_conf_steps": n_conf, "right_georef_differs": bool(shifted)}
     return user, desc
 
 
@@ -119,7 +121,7 @@ def read_tree(out):
     return tree
 
 
-def judge_tree(ctx, case, desc, out, saved_left, saved_right, input_profile):
+def judge_tree(ctx, case, desc, out, saved_left, saved_right, input_profile, right_profile=None):
     tree = read_tree(out)
     validation = desc["validation"]
     expect = {"left_disparity.tif", "left_validity_mask.tif", "cfg/config.json"}
@@ -163,9 +165,10 @@ def judge_tree(ctx, case, desc, out, saved_left, saved_right, input_profile):
                     ctx.violation("band-descriptions", f"{fname}: descriptions {descs}, indicators {names}", case, desc=desc)
                 ctx.gate("two_or_more_bands", int(len(names) >= 2))
             if desc["georef"]:
-                if str(prof.get("crs")) != str(input_profile.get("crs")) or prof.get("transform") != input_profile.get("transform"):
-                    ctx.violation("georeferencing", f"{fname}: crs {prof.get('crs')} transform {prof.get('transform')} vs input "
-                                  f"{input_profile.get('crs')} {input_profile.get('transform')}", case, desc=desc)
+                ip = right_profile if (side == "right" and right_profile is not None) else input_profile
+                if str(prof.get("crs")) != str(ip.get("crs")) or prof.get("transform") != ip.get("transform"):
+                    ctx.violation("georeferencing", f"{fname}: crs {prof.get('crs')} transform {prof.get('transform')} vs {side} input "
+                                  f"{ip.get('crs')} {ip.get('transform')}", case, situation=fname, desc=desc)
     return tree
 
 
@@ -191,6 +194,8 @@ def run_case(case, ctx):
         json.dump(user, f)
     out = os.path.join(d, "out")
     _, _, in_prof = rasters.read_all(user["input"]["left"]["img"])
+    _, _, in_prof_r = rasters.read_all(user["input"]["right"]["img"])
+    ctx.gate("right_input_with_its_own_georeferencing", int(desc["right_georef_differs"] and desc["validation"]))
     ctx.gate("nan_invalid_disparity", int(desc["invalid_disparity"] == "NaN"))
     ctx.gate("grids", int(desc["grid"]))
     ctx.gate("georeferenced_input", int(desc["georef"]))
@@ -242,7 +247,7 @@ def run_case(case, ctx):
     if (right_ds is not None) != desc["validation"]:
         ctx.violation("right-dataset-iff-validation", f"right dataset {'present' if right_ds is not None else 'empty'} with validation="
                       f"{desc['validation']}", case, desc=desc)
-    tree = judge_tree(ctx, case, desc, out, captured["l"], right_ds, in_prof)
+    tree = judge_tree(ctx, case, desc, out, captured["l"], right_ds, in_prof, in_prof_r)
     # saved configuration
     cfgfile = tree.get("cfg/config.json")
     if cfgfile is None:
